@@ -122,7 +122,8 @@ def run(chk):
         if im != mod:
             if len(x) >= 2 or not isinstance(im, str):
                 chk.disagree("pk." + what, inp, [(str(a), b) for a, b in mod], im if isinstance(im, str) else [(str(a), b) for a, b in im])
-            continue
+            if isinstance(im, str):
+                continue
         if im:
             chk.nontriv((tuple(x), what, loc, thr))
         chk.dist("%s:%s:%s" % (what, loc, "n=%d" % min(len(im), 3)))
